@@ -4,6 +4,7 @@ use nalgebra::Vector3;
 use spdcalc::dim::ucum::{DEG, K, M, RAD, S};
 use spdcalc::prelude::*;
 use spdcalc::utils::Steps2D;
+use spdcalc::beam::BeamWaist;
 use spdcalc::{delta_k, AutoCalcParam, CrystalSetup, PeriodicPoling, Sign, SPDC};
 
 pub const C: f64 = 299_792_458.0;
@@ -92,6 +93,29 @@ pub fn mk_beams(pm: PMType, lp: f64, ls: f64, theta_s: f64, phi_s: f64, waist: f
   let signal: SignalBeam = Beam::new(pm.signal_polarization(), phi_s * RAD, theta_s * RAD, ls * M, waist * M).into();
   let pump: PumpBeam = Beam::new(pm.pump_polarization(), 0. * RAD, 0. * RAD, lp * M, waist * M).into();
   (signal, pump)
+}
+
+/// beams with given (possibly elliptic) waists; the pump's waist is independent of the signal's
+pub fn mk_beams_w(pm: PMType, lp: f64, ls: f64, theta_s: f64, phi_s: f64, ws: BeamWaist, wp: BeamWaist) -> (SignalBeam, PumpBeam) {
+  let signal: SignalBeam = Beam::new(pm.signal_polarization(), phi_s * RAD, theta_s * RAD, ls * M, ws).into();
+  let pump: PumpBeam = Beam::new(pm.pump_polarization(), 0. * RAD, 0. * RAD, lp * M, wp).into();
+  (signal, pump)
+}
+
+/// a beam waist `BeamWaist { x, y }` (public fields; `Beam::new` and `set_waist` take `Into<BeamWaist>`): 2/5 circular,
+/// 3/5 ELLIPTIC — nearly circular (relative difference 1e-12…1e-2), moderate aspect ratio, or both axes independent
+pub fn gen_waist(r: &mut Rng) -> BeamWaist {
+  let x = r.log_range(20e-6, 2e-3);
+  let y = match r.below(10) {
+    0..=3 => x,
+    4 => x * (1.0 + r.log_range(1e-12, 1e-2) * if r.coin() { -1.0 } else { 1.0 }),
+    5 | 6 => x * r.range(0.3, 3.0),
+    _ => r.log_range(20e-6, 2e-3),
+  };
+  BeamWaist { x: x * M, y: y * M }
+}
+pub fn waist_str(w: BeamWaist) -> String {
+  format!("({:e},{:e})", *(w.x / M), *(w.y / M))
 }
 
 /// wire form of a poling: `off x0 0` | `on <period> <neg>`
@@ -204,20 +228,63 @@ fn gen_poling(r: &mut Rng) -> PeriodicPoling {
 /// Every variant ends in the state `Beam::new(pol, phs, ths, ls, waist)` describes (the getters are read back
 /// afterwards, so a setter that rounds differently from the constructor cannot raise an alarm).
 #[allow(clippy::too_many_arguments)]
-fn build_by_setters(r: &mut Rng, pm: PMType, lp: f64, ls: f64, ths: f64, phs: f64, waist: f64, signal: &mut SignalBeam, pump: &mut PumpBeam) -> &'static str {
+fn build_by_setters(r: &mut Rng, pm: PMType, lp: f64, ls: f64, ths: f64, phs: f64, waist: BeamWaist, wp: BeamWaist, signal: &mut SignalBeam, pump: &mut PumpBeam) -> &'static str {
   let other = |p: PolarizationType| if p == PolarizationType::Ordinary { PolarizationType::Extraordinary } else { PolarizationType::Ordinary };
   let phi0 = r.range(0.0, TAU);
   let th0 = r.range(0.02, 0.3) * if r.coin() { -1.0 } else { 1.0 };
   let l0 = ls * r.range(0.7, 1.4);
   let sp = pm.signal_polarization();
-  let mk = |pol, ph: f64, th: f64, l: f64, w: f64| -> SignalBeam { Beam::new(pol, ph * RAD, th * RAD, l * M, w * M).into() };
-  match r.below(15) {
+  let mk = |pol, ph: f64, th: f64, l: f64, w: BeamWaist| -> SignalBeam { Beam::new(pol, ph * RAD, th * RAD, l * M, w).into() };
+  // another waist to start from (elliptic or circular, and the circular beam of the target's x alone)
+  let w0 = match r.below(3) {
+    0 => BeamWaist::new(waist.x),
+    1 => BeamWaist { x: waist.y, y: waist.x },
+    _ => gen_waist(r),
+  };
+  match r.below(20) {
     14 => {
       // the conversion Beam -> PumpBeam: whatever it does with the angles of a tilted beam, the clauses are checked
       // against the pump's direction as the resulting object reports it (kp along `phi()`, `theta_internal()`)
-      let b = Beam::new(pm.pump_polarization(), phi0 * RAD, th0 * RAD, lp * M, waist * M);
+      let b = Beam::new(pm.pump_polarization(), phi0 * RAD, th0 * RAD, lp * M, wp);
       *pump = if r.coin() { b.into() } else { PumpBeam::from(b) };
       "pump:new-tilted.into()"
+    }
+    15 => {
+      // the documented constructor keeps the wrapped beam's direction: a pump that is NOT along z (|θp| ≤ 0.1)
+      let thp = gen_theta(r, 0.1);
+      *pump = PumpBeam::new(Beam::new(pm.pump_polarization(), phi0 * RAD, thp * RAD, lp * M, wp));
+      "pump:PumpBeam::new(tilted)"
+    }
+    16 => {
+      let thp = gen_theta(r, 0.1);
+      match r.below(3) {
+        0 => {
+          pump.set_angles(phi0 * RAD, thp * RAD);
+        }
+        1 => {
+          pump.set_theta_internal(thp * RAD).set_phi(phi0 * RAD);
+        }
+        _ => {
+          pump.set_phi(phi0 * RAD).set_theta_internal(thp * RAD);
+        }
+      }
+      "pump:tilted-by-setters"
+    }
+    17 => {
+      // the waist given as a plain length (circular) and then replaced by the target through the setter
+      *signal = Beam::new(sp, phs * RAD, ths * RAD, ls * M, waist.x).into();
+      signal.set_waist(waist);
+      "new-circular-x+set_waist"
+    }
+    18 => {
+      *signal = mk(sp, phs, ths, ls, BeamWaist { x: waist.y, y: waist.x });
+      signal.set_waist(waist);
+      "new-swapped-waist+set_waist"
+    }
+    19 => {
+      *pump = Beam::new(pm.pump_polarization(), 0. * RAD, 0. * RAD, lp * M, w0).into();
+      pump.set_waist(wp);
+      "pump:new+set_waist"
     }
     0 => {
       *signal = mk(sp, phi0, ths, ls, waist);
@@ -268,29 +335,29 @@ fn build_by_setters(r: &mut Rng, pm: PMType, lp: f64, ls: f64, ths: f64, phs: f6
       "new+set_polarization"
     }
     9 => {
-      *signal = Beam::new(other(sp), phs * RAD, ths * RAD, ls * M, waist * M).with_polarization(sp).into();
+      *signal = Beam::new(other(sp), phs * RAD, ths * RAD, ls * M, waist).with_polarization(sp).into();
       "new+with_polarization"
     }
     10 => {
-      *signal = mk(sp, phs, ths, ls, waist * r.range(0.3, 3.0));
-      signal.set_waist(waist * M);
+      *signal = mk(sp, phs, ths, ls, w0);
+      signal.set_waist(waist);
       "new+set_waist"
     }
     11 => {
       // everything at once, azimuth last
-      *signal = mk(other(sp), phi0, th0, l0, waist * 2.0);
-      signal.set_polarization(sp).set_waist(waist * M).set_vacuum_wavelength(ls * M).set_theta_internal(ths * RAD).set_phi(phs * RAD);
+      *signal = mk(other(sp), phi0, th0, l0, w0);
+      signal.set_polarization(sp).set_waist(waist).set_vacuum_wavelength(ls * M).set_theta_internal(ths * RAD).set_phi(phs * RAD);
       "new+set_all"
     }
     12 => {
       let pp = pm.pump_polarization();
-      *pump = Beam::new(other(pp), 0. * RAD, 0. * RAD, lp * r.range(0.8, 1.2) * M, waist * M).into();
+      *pump = Beam::new(other(pp), 0. * RAD, 0. * RAD, lp * r.range(0.8, 1.2) * M, wp).into();
       pump.set_polarization(pp).set_vacuum_wavelength(lp * M);
       "pump:new+set_polarization+set_vacuum_wavelength"
     }
     _ => {
       // a pump that was tilted and turned, then brought back onto the axis
-      *pump = Beam::new(pm.pump_polarization(), phi0 * RAD, th0 * RAD, lp * M, waist * M).into();
+      *pump = Beam::new(pm.pump_polarization(), phi0 * RAD, th0 * RAD, lp * M, wp).into();
       pump.set_phi(0. * RAD).set_theta_internal(0. * RAD).set_frequency(spdcalc::utils::vacuum_wavelength_to_frequency(lp * M));
       "pump:new-tilted+set_phi+set_theta_internal+set_frequency"
     }
@@ -327,11 +394,20 @@ fn k_dk_from_angles(ctx: &mut Ctx, cs: &CrystalSetup, signal: &SignalBeam, idler
 /// one case: K lines for `opt_idler`/`delta_k`, and (when `stmt`) the statement's S predicates
 fn case(ctx: &mut Ctx, spdc0: &SPDC, cs: &CrystalSetup, lp: f64, ls: f64, ths: f64, phs: f64, pp: &PeriodicPoling, stmt: bool) {
   let pm = cs.pm_type;
-  let waist = ctx.rng.log_range(20e-6, 2e-3);
-  let (mut signal, mut pump) = mk_beams(pm, lp, ls, ths, phs, waist);
+  // waists: circular or ELLIPTIC (x ≠ y), the pump's drawn independently of the signal's
+  let waist = gen_waist(&mut ctx.rng);
+  let wp = gen_waist(&mut ctx.rng);
+  let (mut signal, mut pump) = mk_beams_w(pm, lp, ls, ths, phs, waist, wp);
   // a third of the signals (and some pumps) are built somewhere else and then MOVED to the same target by the public
   // setters: the statement is about the beam as it is, whatever calls produced it
-  let built = if ctx.rng.below(3) == 0 { build_by_setters(&mut ctx.rng, pm, lp, ls, ths, phs, waist, &mut signal, &mut pump) } else { "new" };
+  let built = if ctx.rng.below(3) == 0 { build_by_setters(&mut ctx.rng, pm, lp, ls, ths, phs, waist, wp, &mut signal, &mut pump) } else { "new" };
+  ctx.count(if waist.x == waist.y { "idler/signal-waist/circular" } else { "idler/signal-waist/elliptic" });
+  // a pump that is not along z (PumpBeam::new of a tilted beam, pump.set_angles): the clause about the reported mismatch
+  // holds for ANY beams; the closed-form idler DIRECTION is stated for the usual frame (pump along z) only
+  let pump_tilted = dir_of(&pump) != Vector3::new(0., 0., 1.) || th_of(&pump) != 0.0;
+  if pump_tilted {
+    ctx.count("dk/pump-tilted");
+  }
   ctx.count(&format!("idler/signal-built-by/{}", built));
   // hand-built beams whose polarizations need not agree with the phase-matching label
   if ctx.rng.below(4) == 0 {
@@ -344,7 +420,15 @@ fn case(ctx: &mut Ctx, spdc0: &SPDC, cs: &CrystalSetup, lp: f64, ls: f64, ths: f
   let lpr = l_of(&pump);
   let ns = *signal.refractive_index(signal.frequency(), cs);
   let np = *pump.refractive_index(pump.frequency(), cs);
-  let what = format!("{} built={}", describe(cs, lp, ls, ths, phs, pp), built);
+  let what = format!(
+    "{} built={} waist_s={} waist_p={} theta_p={:e} phi_p={:e}",
+    describe(cs, lp, ls, ths, phs, pp),
+    built,
+    waist_str(signal.waist()),
+    waist_str(pump.waist()),
+    th_of(&pump),
+    ph_of(&pump)
+  );
   let r = guard(|| IdlerBeam::try_new_optimum(&signal, &pump, cs, pp));
   let args = format!(
     "{} {} {} {} {} {} {} {} {} {} {}",
@@ -469,6 +553,8 @@ fn case(ctx: &mut Ctx, spdc0: &SPDC, cs: &CrystalSetup, lp: f64, ls: f64, ths: f
     spdc.pp = pp.clone();
     let ok = match guard(|| spdc.optimum_idler()) {
       Some(Ok(i)) => {
+        // the idler this route hands out: every scalar clause on it as well
+        idler_scalar_clauses(ctx, "idler", "/spdc-object", &i, &signal, &pump, pol_i, &what);
         spdc.idler = i;
         let dk2 = raw_vec(spdc.delta_k(ws * RAD / S, wi * RAD / S));
         (dk2 - expect).amax() <= 1e-9 * scale
@@ -478,15 +564,12 @@ fn case(ctx: &mut Ctx, spdc0: &SPDC, cs: &CrystalSetup, lp: f64, ls: f64, ths: f
     ctx.count("dk/spdc-object");
     ctx.s("C03.deltak", ok, "dk/definition/spdc-object", &what);
   }
-  // (2) energy conservation, polarization, azimuth, waist
-  let li = l_of(&idler);
-  let inv = 1.0 / lpr - 1.0 / lsr;
-  ctx.s("C03.idler", (1.0 / li - inv).abs() <= 1e-9 * inv.abs(), "idler/energy", &format!("{} li={:e}", what, li));
-  ctx.s("C03.idler", idler.polarization() == pol_i, "idler/polarization", &what);
-  let dphi = (ph_of(&idler) - ph_of(&signal) - std::f64::consts::PI).rem_euclid(TAU);
-  let dphi = dphi.min(TAU - dphi);
-  ctx.s("C03.idler", dphi <= 1e-9 && ph_of(&idler) >= 0.0 && ph_of(&idler) < TAU + 1e-15, "idler/azimuth", &format!("{} phi_i={:e}", what, ph_of(&idler)));
-  ctx.s("C03.idler", idler.waist() == signal.waist(), "idler/waist", &what);
+  // (2) energy conservation, polarization, azimuth, waist (x AND y)
+  idler_scalar_clauses(ctx, "idler", "", &idler, &signal, &pump, pol_i, &what);
+  ctx.s("C03.idler", ph_of(&idler) >= 0.0 && ph_of(&idler) < TAU + 1e-15, "idler/azimuth", &format!("{} phi_i={:e}", what, ph_of(&idler)));
+  if pump_tilted {
+    return;
+  }
   // (3) idler parallel to the closing vector whenever that points forward
   let c = kp - ks - zhat * k_lambda;
   let di = dir_of(&idler);
@@ -506,6 +589,33 @@ fn case(ctx: &mut Ctx, spdc0: &SPDC, cs: &CrystalSetup, lp: f64, ls: f64, ths: f
   } else {
     ctx.count("idler/closing/backward");
   }
+}
+
+/// the clauses about the derived idler that do not involve its polar angle: 1/λi = 1/λp − 1/λs, the polarization the
+/// phase-matching type dictates, azimuth opposite to the signal's, the signal's waist — BOTH components, bit for bit
+/// (signatures `<prefix>/{energy, polarization, azimuth, waist}<suffix>`)
+#[allow(clippy::too_many_arguments)]
+fn idler_scalar_clauses(ctx: &mut Ctx, prefix: &str, suffix: &str, idler: &IdlerBeam, signal: &SignalBeam, pump: &PumpBeam, pol_i: PolarizationType, what: &str) {
+  let (lsr, lpr, li) = (l_of(signal), l_of(pump), l_of(idler));
+  let inv = 1.0 / lpr - 1.0 / lsr;
+  ctx.s("C03.idler", (1.0 / li - inv).abs() <= 1e-9 * inv.abs(), &format!("{}/energy{}", prefix, suffix), &format!("{} li={:e}", what, li));
+  ctx.s(
+    "C03.idler",
+    idler.polarization() == pol_i,
+    &format!("{}/polarization{}", prefix, suffix),
+    &format!("{} idler_pol={} want={}", what, pol_name(idler.polarization()), pol_name(pol_i)),
+  );
+  let dphi = (ph_of(idler) - ph_of(signal) - std::f64::consts::PI).rem_euclid(TAU);
+  let dphi = dphi.min(TAU - dphi);
+  ctx.s("C03.idler", dphi <= 1e-9, &format!("{}/azimuth{}", prefix, suffix), &format!("{} phi_i={:e}", what, ph_of(idler)));
+  let (wi, ws) = (idler.waist(), signal.waist());
+  let same = wi.x == ws.x && wi.y == ws.y && wi == ws;
+  ctx.s(
+    "C03.idler",
+    same,
+    &format!("{}/waist{}", prefix, suffix),
+    &format!("{} waist_i={} want_waist_s={} waist_p={}", what, waist_str(wi), waist_str(ws), waist_str(pump.waist())),
+  );
 }
 
 // =====================================================================================================================
@@ -695,19 +805,12 @@ fn check_spdc_ex(ctx: &mut Ctx, spdc: &SPDC, route: &str, hist: &str, derived: b
   if !derived {
     return;
   }
-  let (lsr, lpr, li) = (l_of(signal), l_of(pump), l_of(idler));
-  let inv = 1.0 / lpr - 1.0 / lsr;
-  ctx.s("C03.idler", (1.0 / li - inv).abs() <= 1e-9 * inv.abs(), &sig("energy"), &format!("{} li={:e}", what, li));
-  ctx.s(
-    "C03.idler",
-    idler.polarization() == pol_i,
-    &sig("polarization"),
-    &format!("{} idler_pol={} want={}", what, pol_name(idler.polarization()), pol_name(pol_i)),
-  );
-  let dphi = (ph_of(idler) - ph_of(signal) - std::f64::consts::PI).rem_euclid(TAU);
-  let dphi = dphi.min(TAU - dphi);
-  ctx.s("C03.idler", dphi <= 1e-9, &sig("azimuth"), &format!("{} phi_i={:e}", what, ph_of(idler)));
-  ctx.s("C03.idler", idler.waist() == signal.waist(), &sig("waist"), &what);
+  idler_scalar_clauses(ctx, &format!("route/{}", route), "", idler, signal, pump, pol_i, &what);
+  ctx.count(if signal.waist().x == signal.waist().y { "route/signal-waist/circular" } else { "route/signal-waist/elliptic" });
+  // (the closed-form direction is stated for the usual frame: pump along z)
+  if dir_of(pump) != Vector3::new(0., 0., 1.) {
+    return;
+  }
   let c = kp - ks - zhat * k_lambda;
   let di = dir_of(idler);
   if c.z > 0.0 && th_of(signal).abs() <= 0.3 && !cs.counter_propagation {
@@ -735,7 +838,8 @@ fn route_session(ctx: &mut Ctx, spdc0: &SPDC, cr: &[CrystalType]) {
   let (lp0, ls0) = gen_wavelengths(&mut ctx.rng, &crystal);
   let pm0 = *ctx.rng.pick(&PMS);
   spdc.crystal_setup = mk_setup(crystal.clone(), pm0, ctx.rng.range(0.0, std::f64::consts::FRAC_PI_2), ctx.rng.range(0.0, TAU), ctx.rng.range(1e-3, 30e-3), ctx.rng.range(0.0, 100.0), false);
-  let (sg, pu) = mk_beams(pm0, lp0, ls0, ctx.rng.range(0.0, 0.3), ctx.rng.range(0.0, TAU), 100e-6);
+  let (w_s, w_p) = (gen_waist(&mut ctx.rng), gen_waist(&mut ctx.rng));
+  let (sg, pu) = mk_beams_w(pm0, lp0, ls0, ctx.rng.range(0.0, 0.3), ctx.rng.range(0.0, TAU), w_s, w_p);
   spdc.signal = sg;
   spdc.pump = pu;
   spdc.pp = PeriodicPoling::Off;
@@ -748,13 +852,26 @@ fn route_session(ctx: &mut Ctx, spdc0: &SPDC, cr: &[CrystalType]) {
   for _ in 0..steps {
     // ---- 1–3 mutations of the object
     for _ in 0..ctx.rng.between(1, 3) {
-      match ctx.rng.below(10) {
+      match ctx.rng.below(12) {
         0 | 1 => {
           let pm = *ctx.rng.pick(&PMS);
           spdc.crystal_setup.pm_type = pm;
           spdc.signal.set_polarization(pm.signal_polarization());
           spdc.pump.set_polarization(pm.pump_polarization());
           hist.push_str(&format!(">pm:{}", pm));
+        }
+        10 => {
+          // a new (possibly elliptic) signal waist; the idler's is moved along, because assign_/with_optimum_idler and
+          // try_as_optimum keep the idler's own waist by design (optimum_idler and the config route take the signal's)
+          let w = gen_waist(&mut ctx.rng);
+          spdc.signal.set_waist(w);
+          spdc.idler.set_waist(w);
+          hist.push_str(&format!(">signal+idler-waist:{}", waist_str(w)));
+        }
+        11 => {
+          let w = gen_waist(&mut ctx.rng);
+          spdc.pump.set_waist(w);
+          hist.push_str(&format!(">pump-waist:{}", waist_str(w)));
         }
         7 => {
           // the label alone: the beams keep their polarizations
@@ -1007,10 +1124,10 @@ fn mutate_pre(ctx: &mut Ctx, spdc: &mut SPDC, crystal: &CrystalType, which: usiz
     }
     8 => {
       // (the idler's waist is moved along: assign/with_optimum_idler keep the idler's own waist by design)
-      let v = r.log_range(20e-6, 2e-3);
-      spdc.signal.set_waist(v * M);
-      spdc.idler.set_waist(v * M);
-      tok("signal.set_waist", format!("{:e}", v))
+      let v = gen_waist(r);
+      spdc.signal.set_waist(v);
+      spdc.idler.set_waist(v);
+      tok("signal.set_waist", waist_str(v))
     }
     9 => {
       let v = pick_lp(r, crystal, ls)?;
@@ -1028,9 +1145,9 @@ fn mutate_pre(ctx: &mut Ctx, spdc: &mut SPDC, crystal: &CrystalType, which: usiz
       tok("pump.set_polarization", pol_name(p).to_string())
     }
     12 => {
-      let v = r.log_range(20e-6, 2e-3);
-      spdc.pump.set_waist(v * M);
-      tok("pump.set_waist", format!("{:e}", v))
+      let v = gen_waist(r);
+      spdc.pump.set_waist(v);
+      tok("pump.set_waist", waist_str(v))
     }
     13 => {
       let v = gen_phi(r).to_degrees();
@@ -1254,7 +1371,8 @@ fn setter_session(ctx: &mut Ctx, spdc0: &SPDC, cr: &[CrystalType]) {
   let mut spdc = spdc0.clone();
   spdc.crystal_setup = mk_setup(crystal.clone(), pm0, ctx.rng.range(0.0, std::f64::consts::FRAC_PI_2), ctx.rng.range(0.0, TAU), ctx.rng.range(1e-3, 30e-3), ctx.rng.range(0.0, 100.0), false);
   let th0 = gen_theta(&mut ctx.rng, 0.3);
-  let (sg, pu) = mk_beams(pm0, lp0, ls0, th0, ctx.rng.range(0.0, TAU), 100e-6);
+  let (w_s, w_p) = (gen_waist(&mut ctx.rng), gen_waist(&mut ctx.rng));
+  let (sg, pu) = mk_beams_w(pm0, lp0, ls0, th0, ctx.rng.range(0.0, TAU), w_s, w_p);
   spdc.signal = sg;
   spdc.pump = pu;
   spdc.pp = match ctx.rng.below(3) {
@@ -1361,11 +1479,12 @@ fn scan_session(ctx: &mut Ctx, spdc0: &SPDC, cr: &[CrystalType]) {
   let pm0 = *ctx.rng.pick(&PMS);
   let mut spdc = spdc0.clone();
   spdc.crystal_setup = mk_setup(crystal.clone(), pm0, ctx.rng.range(0.0, std::f64::consts::FRAC_PI_2), ctx.rng.range(0.0, TAU), ctx.rng.range(1e-3, 30e-3), ctx.rng.range(0.0, 100.0), false);
-  let (sg, pu) = mk_beams(pm0, lp0, ls0, ctx.rng.range(0.0, 0.3), ctx.rng.range(0.0, TAU), 100e-6);
+  let (w_s, w_p) = (gen_waist(&mut ctx.rng), gen_waist(&mut ctx.rng));
+  let (sg, pu) = mk_beams_w(pm0, lp0, ls0, ctx.rng.range(0.0, 0.3), ctx.rng.range(0.0, TAU), w_s, w_p);
   spdc.signal = sg;
   spdc.pump = pu;
   spdc.pp = gen_poling(&mut ctx.rng);
-  let params = ["temperature", "crystal-theta", "crystal-phi", "length", "pm-type", "pump-wavelength", "signal-wavelength", "signal-theta", "signal-phi", "poling-period", "poling-sign", "poling-on-off", "counter-propagation", "crystal-kind", "pm-type-alone", "signal-polarization", "pump-polarization"];
+  let params = ["temperature", "crystal-theta", "crystal-phi", "length", "pm-type", "pump-wavelength", "signal-wavelength", "signal-theta", "signal-phi", "poling-period", "poling-sign", "poling-on-off", "counter-propagation", "crystal-kind", "pm-type-alone", "signal-polarization", "pump-polarization", "signal-waist", "pump-waist"];
   let mut hist = format!("start:{}:{}", crystal, pm0);
   let steps = ctx.rng.between(8, 24);
   // a scan usually sweeps ONE parameter repeatedly (as a user's loop would), sometimes hops between parameters
@@ -1427,6 +1546,14 @@ fn scan_session(ctx: &mut Ctx, spdc0: &SPDC, cr: &[CrystalType]) {
         }
         "counter-propagation" => spdc.crystal_setup.counter_propagation = !spdc.crystal_setup.counter_propagation,
         "pm-type-alone" => spdc.crystal_setup.pm_type = *ctx.rng.pick(&PMS),
+        "signal-waist" => {
+          let w = gen_waist(&mut ctx.rng);
+          spdc.signal.set_waist(w);
+        }
+        "pump-waist" => {
+          let w = gen_waist(&mut ctx.rng);
+          spdc.pump.set_waist(w);
+        }
         "signal-polarization" => {
           let p = spdc.signal.polarization();
           spdc.signal.set_polarization(if p == PolarizationType::Ordinary { PolarizationType::Extraordinary } else { PolarizationType::Ordinary });
@@ -1475,8 +1602,8 @@ fn config_auto_case(ctx: &mut Ctx, cr: &[CrystalType]) {
   });
   let json = format!(
     r#"{{"crystal":{{"kind":"{}","pm_type":"{}","phi_deg":{},"theta_deg":{},"length_um":{},"temperature_c":{}}},
-        "pump":{{"wavelength_nm":{},"waist_um":100,"bandwidth_nm":5,"average_power_mw":1}},
-        "signal":{{"wavelength_nm":{},"phi_deg":{},"theta_deg":{},"waist_um":100,"waist_position_um":"auto"}},
+        "pump":{{"wavelength_nm":{},"waist_um":{},"bandwidth_nm":5,"average_power_mw":1}},
+        "signal":{{"wavelength_nm":{},"phi_deg":{},"theta_deg":{},"waist_um":{},"waist_position_um":"auto"}},
         "idler":"auto",{} "deff_pm_per_volt":1}}"#,
     crystal.get_meta().id,
     pm,
@@ -1485,9 +1612,11 @@ fn config_auto_case(ctx: &mut Ctx, cr: &[CrystalType]) {
     r4(ctx.rng.range(1000.0, 30000.0)),
     r4(ctx.rng.range(0.0, 100.0)),
     (lp * 1e12).round() / 1e3,
+    r4(ctx.rng.log_range(20.0, 2000.0)),
     (ls * 1e12).round() / 1e3,
     r4(ctx.rng.range(0.0, 360.0)),
     ths_deg,
+    r4(ctx.rng.log_range(20.0, 2000.0)),
     if auto_theta { "" } else { r#""periodic_poling":{"poling_period_um":"auto"},"# }
   );
   let route = if auto_theta { "json-idler-auto+theta-auto" } else { "json-idler-auto+poling-auto" };
